@@ -606,7 +606,9 @@ pub enum Scan {
     End,
     /// the stream ends (or a record is truncated) first
     Truncated,
-    /// a BrtRowHdr shorter than 4 bytes or with a row outside 0..=1048575: outside the property's domain
+    /// a BrtRowHdr shorter than 4 bytes comes first: the reader must reject
+    Short,
+    /// a BrtRowHdr with a row outside 0..=1048575: outside the property's domain
     Malformed,
 }
 /// what the next cell of the record stream s is, `row` being the row of the last BrtRowHdr: written from the property text
@@ -616,7 +618,7 @@ pub open spec fn scan(s: Seq<u8>, row: u32) -> Scan decreases s.len() {
     if !rec_ok(s) || rec_rest(s).len() >= s.len() { Scan::Truncated }   // (second disjunct never true: lemma_rec_total)
     else if is_cell_kind(rec_typ(s)) { Scan::Cell { row, typ: rec_typ(s), payload: rec_payload(s), rest: rec_rest(s) } }
     else if rec_typ(s) == 0x0000 {
-        if rec_payload(s).len() < 4 || le32(rec_payload(s)) > ROW_MAX { Scan::Malformed }
+        if rec_payload(s).len() < 4 { Scan::Short } else if le32(rec_payload(s)) > ROW_MAX { Scan::Malformed }
         else { scan(rec_rest(s), le32(rec_payload(s)) as u32) }
     }
     else if rec_typ(s) == 0x0092 { Scan::End }
@@ -629,7 +631,7 @@ proof fn lemma_scan_step(s: Seq<u8>, row: u32)
         if !rec_ok(s) || rec_rest(s).len() >= s.len() { Scan::Truncated }
         else if is_cell_kind(rec_typ(s)) { Scan::Cell { row, typ: rec_typ(s), payload: rec_payload(s), rest: rec_rest(s) } }
         else if rec_typ(s) == 0x0000 {
-            if rec_payload(s).len() < 4 || le32(rec_payload(s)) > ROW_MAX { Scan::Malformed }
+            if rec_payload(s).len() < 4 { Scan::Short } else if le32(rec_payload(s)) > ROW_MAX { Scan::Malformed }
             else { scan(rec_rest(s), le32(rec_payload(s)) as u32) }
         }
         else if rec_typ(s) == 0x0092 { Scan::End }
@@ -739,6 +741,9 @@ pub open spec fn is_date_fmt(f: Option<CellFormat>) -> bool { f == Some(CellForm
         // a cell record too short for its kind, or a shared string index beyond the table, is an error (never a panic)
         //# C06.malformed_cell_err
         ({ let sc = scan(old(self).rem(), old(self).cur_row()); sc is Cell && !cell_wf(sc->typ, sc->payload, old(self).strs().len() as int) ==> r is Err }),
+        // ... and so is a BrtRowHdr without its 4-byte row number
+        //# C06.short_row_header_err
+        scan(old(self).rem(), old(self).cur_row()) is Short ==> r is Err,
         //# C03.end_none
         scan(old(self).rem(), old(self).cur_row()) is End ==> r is Ok && r->Ok_0 is None,
         //# C03.truncated_err
